@@ -363,8 +363,7 @@ Proof.
   { intros u. unfold locof. rewrite nth_error_map. destruct (nth_error progs u); cbn; auto. }
   unfold init; cbn [gl thr]. split; [|split]; constructor; cbn; intros; rewrite ?P in *; cbn in *;
     try discriminate; try contradiction; try lia; auto.
-  - destruct (Q u) as [-> [-> [-> ->]]]. lia.
-  - split; intros; try discriminate; lia.
+  destruct (Q u) as [-> [-> [-> ->]]]. lia.
 Qed.
 
 Definition R (a0 : bool) (progs : list (list op)) (s : sysT) : Prop := reachable glob loc tstep (init a0 progs) s.
@@ -399,6 +398,7 @@ Proof.
   destruct l as [pr p s1 s2 s3 s4]. cbn [at_ sclr] in *.
   step_cases Hs; cbn in Hop; try (destruct Hop; discriminate);
     try (destruct k; destruct Hop; discriminate);
+    try (destruct tm; destruct Hop; discriminate);
     cbn in Hret; repeat (destruct Hret as [Hret|Hret]; try discriminate); try contradiction.
   - left. split; eauto.
   - right. assert (r = true) by (destruct r; [reflexivity|discriminate]). subst r.
@@ -446,9 +446,9 @@ Proof.
     try (destruct tm; destruct Hop; discriminate);
     cbn in Hret; repeat (destruct Hret as [Hret|Hret]; try discriminate); try contradiction.
   exists tm, r. specialize (HFA r eq_refl).
-  unfold ret_ev, E in Hret. inversion Hret. repeat split; auto.
-  - subst r. destruct tm; [reflexivity|discriminate].
-  - subst r. auto.
+  unfold ret_ev, E in Hret. inversion Hret.
+  refine (conj eq_refl (conj eq_refl (conj HFA (conj _ _)))).
+  - intros ->. split; [destruct tm; [reflexivity|discriminate]|auto].
   - intros ->. destruct (act_stamp (gl s)) eqn:E1; [right; apply HI0; auto|left; lia].
 Qed.
 
@@ -468,6 +468,7 @@ Proof.
   destruct l as [pr p s1 s2 s3 s4]. cbn [at_] in *.
   step_cases Hs; cbn in Hop; try (destruct Hop; discriminate);
     try (destruct k; destruct Hop; discriminate);
+    try (destruct tm; destruct Hop; discriminate);
     cbn in Hret; repeat (destruct Hret as [Hret|Hret]; try discriminate); try contradiction.
   assert (r = false) by (destruct r; [discriminate|reflexivity]). subst r.
   specialize (HFT false eq_refl). destruct (HT HFT) as [HT1 _].
@@ -483,9 +484,11 @@ Lemma trigger_inactive t c g l g' l' es :
 Proof.
   intros Hop Hs. destruct l as [pr p s1 s2 s3 s4]. cbn [at_] in *.
   step_cases Hs; cbn in Hop; try discriminate; try (destruct tm; discriminate).
-  all: repeat split; try (intros [? ?]; try discriminate; try congruence);
-       try (intros Hret; cbn in Hret; repeat (destruct Hret as [Hret|Hret]; try discriminate); try contradiction; auto);
-       cbn; auto.
+  all: refine (conj (conj _ _) (conj _ _)).
+  all: try (intros Hret;
+            first [ destruct Hret as [Ha Hb]; (discriminate || congruence)
+                  | cbn in Hret; repeat (destruct Hret as [Hret|Hret]; try discriminate); try contradiction ]).
+  all: cbn; auto.
 Qed.
 
 (* reset(): the variable is inactive when reset returns (and the returning step does not change that) *)
@@ -501,4 +504,263 @@ Proof.
   step_cases Hs; cbn in Hop; try discriminate; try (destruct tm; discriminate);
     cbn in Hret; repeat (destruct Hret as [Hret|Hret]; try discriminate); try contradiction.
   specialize (HFA false eq_refl). cbn. auto.
+Qed.
+
+(* ---------- C11, liveness ---------- *)
+(* a thread that owns a mutex can always take its next step: no mutex is held across a wait or a lock *)
+Lemma holderT_enabled a0 progs s a c : R a0 progs s -> mT (gl s) = Some a -> enabledT s a c.
+Proof.
+  intros HR Hm. destruct (R_inv _ _ _ HR) as [H1 _].
+  pose proof (I_heldT _ _ H1 a Hm) as Hh. unfold pcof in Hh.
+  destruct (nth_error (thr s) a) as [l|] eqn:Hl; [|discriminate].
+  assert (exists r, tstep a c (gl s) l = Some r) as [r Hr]; [|exists l, r; auto].
+  destruct l as [pr p s1 s2 s3 s4]. cbn in Hh. unfold tstep. cbn [at_ prog].
+  destruct p; try discriminate; try (eexists; reflexivity).
+  destruct k; eexists; reflexivity.
+Qed.
+Lemma holderA_enabled a0 progs s a c : R a0 progs s -> mA (gl s) = Some a -> enabledT s a c.
+Proof.
+  intros HR Hm. destruct (R_inv _ _ _ HR) as [H1 _].
+  pose proof (I_heldA _ _ H1 a Hm) as Hh. unfold pcof in Hh.
+  destruct (nth_error (thr s) a) as [l|] eqn:Hl; [|discriminate].
+  assert (exists r, tstep a c (gl s) l = Some r) as [r Hr]; [|exists l, r; auto].
+  destruct l as [pr p s1 s2 s3 s4]. cbn in Hh. unfold tstep. cbn [at_ prog].
+  destruct p; try discriminate; try (eexists; reflexivity).
+  destruct (triggered (gl s)); eexists; reflexivity.
+Qed.
+
+(* no lost wake-up, in every reachable state: a sleeper on cv_trigger that has not been notified although
+   triggered is true / a trigger store (by trigger() or by reset()) or a reset loop exit happened since it
+   went to sleep: the notifier owns triggerLock, stands right before its notify_all, and can move *)
+Lemma wake_pending_T a0 progs s u :
+  R a0 progs s -> In u (slT (gl s)) ->
+  triggered (gl s) = true \/ slp (locof (thr s) u) <= trig_stamp (gl s) \/ slp (locof (thr s) u) <= rexit_stamp (gl s) ->
+  exists a, mT (gl s) = Some a /\ is_Tnotify (pcof (thr s) a) = true /\ enabledT s a 0.
+Proof.
+  intros HR Hin Hc. destruct (R_inv _ _ _ HR) as [_ [H2 H3]].
+  assert (exists a, mT (gl s) = Some a /\ is_Tnotify (pcof (thr s) a) = true) as [a [Ha Hn]].
+  { destruct Hc as [Hc|Hc]; [eapply F_wakeT; eauto|eapply S_slT; eauto]. }
+  exists a. repeat split; auto. eapply holderT_enabled; eauto.
+Qed.
+Lemma wake_pending_A a0 progs s u :
+  R a0 progs s -> In u (slA (gl s)) ->
+  activated (gl s) = true \/ slp (locof (thr s) u) <= act_stamp (gl s) ->
+  exists a, mA (gl s) = Some a /\ is_Anotify (pcof (thr s) a) = true /\ enabledT s a 0.
+Proof.
+  intros HR Hin Hc. destruct (R_inv _ _ _ HR) as [_ [H2 H3]].
+  assert (exists a, mA (gl s) = Some a /\ is_Anotify (pcof (thr s) a) = true) as [a [Ha Hn]].
+  { destruct Hc as [Hc|Hc]; [eapply F_wakeA; eauto|eapply S_slA; eauto]. }
+  exists a. repeat split; auto. eapply holderA_enabled; eauto.
+Qed.
+
+(* a notified sleeper is never stuck: it can wake, or the owner of its mutex can move *)
+Lemma notified_moves a0 progs s t l tm :
+  R a0 progs s -> nth_error (thr s) t = Some l ->
+  (at_ l = W_woken tm /\ ~ In t (slT (gl s))) \/ (at_ l = V_woken tm /\ ~ In t (slA (gl s))) ->
+  exists b, enabledT s b 0.
+Proof.
+  intros HR Hl [[Hp Hn]|[Hp Hn]]; destruct l as [pr p s1 s2 s3 s4]; cbn in Hp; subst p.
+  - destruct (mT (gl s)) as [a|] eqn:Hm; [exists a; eapply holderT_enabled; eauto|].
+    exists t. eexists; eexists. split; [exact Hl|]. unfold tstep. cbn [at_].
+    assert (mem t (slT (gl s)) = false) as -> by (destruct (mem t (slT (gl s))) eqn:E; [apply mem_In in E; contradiction|reflexivity]).
+    cbn. rewrite Hm. reflexivity.
+  - destruct (mA (gl s)) as [a|] eqn:Hm; [exists a; eapply holderA_enabled; eauto|].
+    exists t. eexists; eexists. split; [exact Hl|]. unfold tstep. cbn [at_].
+    assert (mem t (slA (gl s)) = false) as -> by (destruct (mem t (slA (gl s))) eqn:E; [apply mem_In in E; contradiction|reflexivity]).
+    cbn. rewrite Hm. reflexivity.
+Qed.
+
+(* what a state looks like when nothing can move without a spurious wake-up: every thread has finished its
+   program, or sleeps un-notified in wait() with triggered false and no trigger store / reset loop exit since it
+   went to sleep, or sleeps un-notified in waitActivation() with activated false and no activation since *)
+Lemma quiescent_shape a0 progs s t l :
+  R a0 progs s -> quiescentT s -> nth_error (thr s) t = Some l ->
+  fin l = true \/
+  (at_ l = W_woken false /\ In t (slT (gl s)) /\ triggered (gl s) = false /\
+   trig_stamp (gl s) < slp l /\ rexit_stamp (gl s) < slp l) \/
+  (at_ l = V_woken false /\ In t (slA (gl s)) /\ activated (gl s) = false /\ act_stamp (gl s) < slp l).
+Proof.
+  intros HR HQ Hl. destruct (R_inv _ _ _ HR) as [H1 [H2 H3]].
+  assert (HfT : mT (gl s) = None).
+  { destruct (mT (gl s)) as [a|] eqn:Hm; [|reflexivity].
+    exfalso. apply (HQ a 0); [lia|]. eapply holderT_enabled; eauto. }
+  assert (HfA : mA (gl s) = None).
+  { destruct (mA (gl s)) as [a|] eqn:Hm; [|reflexivity].
+    exfalso. apply (HQ a 0); [lia|]. eapply holderA_enabled; eauto. }
+  assert (Hdis : forall c, c <> 1 -> tstep t c (gl s) l = None).
+  { intros c Hc. destruct (tstep t c (gl s) l) as [r|] eqn:Hs; [|reflexivity].
+    exfalso. apply (HQ t c Hc). exists l, r. auto. }
+  pose proof (Hdis 0 ltac:(lia)) as Hd0. pose proof (Hdis 2 ltac:(lia)) as Hd2.
+  pose proof (locof_at _ _ _ Hl) as Hlo.
+  pose proof (F_wakeT _ _ H2 t) as HWT. pose proof (F_wakeA _ _ H2 t) as HWA.
+  pose proof (S_slT _ _ _ H3 t) as HLT. pose proof (S_slA _ _ _ H3 t) as HLA. rewrite Hlo in HLT, HLA.
+  destruct l as [pr p s1 s2 s3 s4]. unfold tstep in Hd0, Hd2. cbn [at_ prog slp] in *.
+  destruct p; try discriminate; try (rewrite ?HfT, ?HfA in Hd0; discriminate).
+  - destruct pr; [left; reflexivity|discriminate].
+  - destruct (activated (gl s)); discriminate.
+  - destruct (activated (gl s)); [discriminate|destruct k; discriminate].
+  - destruct k; discriminate.
+  - destruct (activated (gl s)); discriminate.
+  - (* W_woken *)
+    right; left. rewrite HfT in Hd2. cbn in Hd2.
+    destruct (mem t (slT (gl s))) eqn:Hm; [|discriminate]. cbn in Hd2.
+    destruct tm; [discriminate|]. apply mem_In in Hm.
+    assert (triggered (gl s) = false) as Htr.
+    { destruct (triggered (gl s)); [|reflexivity]. destruct (HWT Hm eq_refl) as [a [Ha _]]. congruence. }
+    repeat split; auto.
+    + destruct (le_lt_dec s2 (trig_stamp (gl s))) as [Hle|Hlt]; [|exact Hlt].
+      destruct (HLT Hm (or_introl Hle)) as [a [Ha _]]. congruence.
+    + destruct (le_lt_dec s2 (rexit_stamp (gl s))) as [Hle|Hlt]; [|exact Hlt].
+      destruct (HLT Hm (or_intror Hle)) as [a [Ha _]]. congruence.
+  - (* V_woken *)
+    right; right. rewrite HfA in Hd2. cbn in Hd2.
+    destruct (mem t (slA (gl s))) eqn:Hm; [|discriminate]. cbn in Hd2.
+    destruct tm; [discriminate|]. apply mem_In in Hm.
+    assert (activated (gl s) = false) as Htr.
+    { destruct (activated (gl s)); [|reflexivity]. destruct (HWA Hm eq_refl) as [a [Ha _]]. congruence. }
+    repeat split; auto.
+    destruct (le_lt_dec s2 (act_stamp (gl s))) as [Hle|Hlt]; [|exact Hlt].
+    destruct (HLA Hm Hle) as [a [Ha _]]. congruence.
+  - destruct (triggered (gl s)); discriminate.
+Qed.
+
+(* released by trigger() / reset(): if a thread is still blocked in wait() when nothing moves any more, then every
+   triggered=true store (and every reset loop exit) made after it first went to sleep was followed by a
+   triggered=false store, i.e. the variable was re-activated while the thread was still blocked *)
+Lemma no_lost_wakeup_trigger a0 progs s t l :
+  R a0 progs s -> quiescentT s -> nth_error (thr s) t = Some l -> is_Wwoken (at_ l) = true ->
+  0 < fslp l /\
+  (fslp l < trig_stamp (gl s) -> trig_stamp (gl s) < clear_stamp (gl s)) /\
+  (fslp l < rexit_stamp (gl s) -> rexit_stamp (gl s) < clear_stamp (gl s)).
+Proof.
+  intros HR HQ Hl Hw. destruct (R_inv _ _ _ HR) as [_ [_ H3]].
+  pose proof (S_fslp _ _ _ H3 t) as HF. rewrite (pcof_at _ _ _ Hl), (locof_at _ _ _ Hl), Hw in HF.
+  specialize (HF eq_refl).
+  destruct (quiescent_shape _ _ _ _ _ HR HQ Hl) as [Hf|[[Hp [_ [Htr _]]]|[Hp _]]].
+  - unfold fin in Hf. destruct (at_ l); discriminate.
+  - destruct (S_trig _ _ _ H3) as [_ HT]. destruct (HT Htr) as [A B]. repeat split; auto; lia.
+  - rewrite Hp in Hw. discriminate.
+Qed.
+
+Lemma no_lost_wakeup_activate a0 progs s t l :
+  R a0 progs s -> quiescentT s -> nth_error (thr s) t = Some l -> is_Vwoken (at_ l) = true ->
+  0 < fslp l /\ (fslp l < act_stamp (gl s) -> act_stamp (gl s) < deact_stamp (gl s)).
+Proof.
+  intros HR HQ Hl Hw. destruct (R_inv _ _ _ HR) as [_ [_ H3]].
+  pose proof (S_fslp _ _ _ H3 t) as HF. rewrite (pcof_at _ _ _ Hl), (locof_at _ _ _ Hl), Hw, orb_true_r in HF.
+  specialize (HF eq_refl).
+  destruct (quiescent_shape _ _ _ _ _ HR HQ Hl) as [Hf|[[Hp _]|[Hp [_ [Hac _]]]]].
+  - unfold fin in Hf. destruct (at_ l); discriminate.
+  - rewrite Hp in Hw. discriminate.
+  - destruct (S_act _ _ _ H3) as [_ HA]. specialize (HA Hac). split; auto; lia.
+Qed.
+
+(* the same, as "every waiter has returned": when nothing moves and the flag is (still) true, no thread is
+   inside a wait on that flag *)
+Lemma trigger_releases a0 progs s t l :
+  R a0 progs s -> quiescentT s -> triggered (gl s) = true -> nth_error (thr s) t = Some l ->
+  cur_op (at_ l) <> Some Wait /\ cur_op (at_ l) <> Some WaitFor.
+Proof.
+  intros HR HQ Htr Hl.
+  destruct (quiescent_shape _ _ _ _ _ HR HQ Hl) as [Hf|[[Hp [_ [Htr' _]]]|[Hp _]]].
+  - unfold fin in Hf. destruct (at_ l); try discriminate. cbn. split; discriminate.
+  - congruence.
+  - rewrite Hp. cbn. split; discriminate.
+Qed.
+Lemma activate_releases a0 progs s t l :
+  R a0 progs s -> quiescentT s -> activated (gl s) = true -> nth_error (thr s) t = Some l ->
+  cur_op (at_ l) <> Some WaitActivation /\ cur_op (at_ l) <> Some WaitForActivation.
+Proof.
+  intros HR HQ Htr Hl.
+  destruct (quiescent_shape _ _ _ _ _ HR HQ Hl) as [Hf|[[Hp _]|[Hp [_ [Htr' _]]]]].
+  - unfold fin in Hf. destruct (at_ l); try discriminate. cbn. split; discriminate.
+  - rewrite Hp. cbn. split; discriminate.
+  - congruence.
+Qed.
+
+(* trigger(), activate(), reset() and the flag queries never wait for an event: a thread that cannot move is
+   finished, or waits for a mutex whose owner can move, or sleeps un-notified inside one of the four waits *)
+Lemma disabled_shape a0 progs s t l :
+  R a0 progs s -> nth_error (thr s) t = Some l -> tstep t 0 (gl s) l = None ->
+  fin l = true \/
+  (exists a, (mT (gl s) = Some a \/ mA (gl s) = Some a) /\ a <> t /\ enabledT s a 0) \/
+  (is_Wwoken (at_ l) = true /\ In t (slT (gl s))) \/ (is_Vwoken (at_ l) = true /\ In t (slA (gl s))).
+Proof.
+  intros HR Hl Hs. destruct (R_inv _ _ _ HR) as [H1 _].
+  pose proof (I_heldT _ _ H1 t) as HhT. pose proof (I_heldA _ _ H1 t) as HhA.
+  rewrite (pcof_at _ _ _ Hl) in HhT, HhA.
+  assert (LT : forall a, mT (gl s) = Some a -> holdsT (at_ l) = false ->
+               exists a, (mT (gl s) = Some a \/ mA (gl s) = Some a) /\ a <> t /\ enabledT s a 0).
+  { intros a Ha Hh. exists a. repeat split; auto.
+    - intros ->. rewrite (HhT Ha) in Hh. discriminate.
+    - eapply holderT_enabled; eauto. }
+  assert (LA : forall a, mA (gl s) = Some a -> holdsA (at_ l) = false ->
+               exists a, (mT (gl s) = Some a \/ mA (gl s) = Some a) /\ a <> t /\ enabledT s a 0).
+  { intros a Ha Hh. exists a. repeat split; auto.
+    - intros ->. rewrite (HhA Ha) in Hh. discriminate.
+    - eapply holderA_enabled; eauto. }
+  destruct l as [pr p s1 s2 s3 s4]. unfold tstep in Hs. cbn [at_ prog] in *.
+  destruct p; try discriminate;
+    try (destruct (mT (gl s)) as [a|] eqn:Hm; [right; left; eapply LT; eauto|discriminate]);
+    try (destruct (mA (gl s)) as [a|] eqn:Hm; [right; left; eapply LA; eauto|discriminate]).
+  - destruct pr; [left; reflexivity|discriminate].
+  - destruct (activated (gl s)); discriminate.
+  - destruct (activated (gl s)); [discriminate|destruct k; discriminate].
+  - destruct k; discriminate.
+  - destruct (activated (gl s)); discriminate.
+  - destruct (mem t (slT (gl s))) eqn:Hm.
+    + right; right; left. split; [reflexivity|apply mem_In; exact Hm].
+    + cbn in Hs. destruct (mT (gl s)) as [a|] eqn:Hm2; [right; left; eapply LT; eauto|discriminate].
+  - destruct (mem t (slA (gl s))) eqn:Hm.
+    + right; right; right. split; [reflexivity|apply mem_In; exact Hm].
+    + cbn in Hs. destruct (mA (gl s)) as [a|] eqn:Hm2; [right; left; eapply LA; eauto|discriminate].
+  - destruct (triggered (gl s)); discriminate.
+Qed.
+
+(* ---------- deciding quiescence of a concrete state (used by the Examples and the refutation witness) ---------- *)
+Lemma tstep_choice t c g l : c <> 1 -> c <> 2 -> tstep t c g l = tstep t 0 g l.
+Proof.
+  intros H1 H2. assert (Nat.eqb c 1 = false) as E1 by (apply Nat.eqb_neq; exact H1).
+  assert (Nat.eqb c 2 = false) as E2 by (apply Nat.eqb_neq; exact H2).
+  unfold tstep. destruct (at_ l); try reflexivity; rewrite E1, E2; reflexivity.
+Qed.
+
+Definition is_none {A} (o : option A) : bool := match o with None => true | Some _ => false end.
+Definition qcheck (s : sysT) : bool :=
+  forallb (fun t => match nth_error (thr s) t with
+                    | Some l => is_none (tstep t 0 (gl s) l) && is_none (tstep t 2 (gl s) l)
+                    | None => true
+                    end) (seq 0 (length (thr s))).
+
+Lemma qcheck_quiescent s : qcheck s = true -> quiescentT s.
+Proof.
+  intros H t c Hc [l [r [Hl Hs]]].
+  unfold qcheck in H. rewrite forallb_forall in H.
+  assert (t < length (thr s)) as Hlt by (apply nth_error_Some; congruence).
+  specialize (H t). rewrite Hl in H.
+  assert (In t (seq 0 (length (thr s)))) as Hin by (apply in_seq; lia).
+  specialize (H Hin). apply andb_true_iff in H as [H0 H2].
+  destruct (Nat.eq_dec c 2) as [->|Hc2].
+  - rewrite Hs in H2. discriminate.
+  - rewrite (tstep_choice _ _ _ _ Hc Hc2) in Hs. rewrite Hs in H0. discriminate.
+Qed.
+
+(* ---------- the unconditional form of "activate() releases the blocked waitActivation()" is false ----------
+   thread 0 sleeps in waitActivation(); thread 1 runs activate() (which returns true) and then reset();
+   thread 0 is notified, wakes, finds activated = false again and goes back to sleep for ever.  The variable was
+   activated exactly once, so it was not "re-activated while the waiter was still blocked". *)
+Definition cex_progs : list (list op) := [[WaitActivation]; [Activate; Reset]].
+Definition cex_sched : list (nat * nat) :=
+  repeat (0, 0) 5 ++ repeat (1, 0) 9 ++ repeat (1, 0) 14 ++ repeat (0, 0) 3.
+Definition cex_state : sysT := runT (init false cex_progs) cex_sched.
+
+Lemma activate_release_unconditional_refuted :
+  exists a0 progs sched t l,
+    let s := runT (init a0 progs) sched in
+    quiescentT s /\ nth_error (thr s) t = Some l /\ at_ l = V_woken false /\ In t (slA (gl s)) /\
+    0 < fslp l /\ fslp l < act_stamp (gl s) /\ nact (gl s) = 1 /\ activated (gl s) = false.
+Proof.
+  exists false, cex_progs, cex_sched, 0.
+  eexists. cbn zeta. split; [apply qcheck_quiescent; vm_compute; reflexivity|].
+  split; [vm_compute; reflexivity|]. vm_compute. repeat split; auto; lia.
 Qed.
